@@ -187,6 +187,163 @@ Section AEADTH.
   Qed.
 End AEADTH.
 
+(* ---------- ANY keyset (keys of different primitives / prefix types after Rotate with another key type) ---------- *)
+Lemma prefix_of_len e : length (prefix_of e) = 0%nat \/ length (prefix_of e) = 5%nat.
+Proof. unfold prefix_of. destruct (e_pt e); simpl; auto. Qed.
+
+Section AEADMIXED.
+  Variable raw_enc : N -> bytes -> bytes -> bytes -> bytes.
+  Variable raw_dec : N -> bytes -> bytes -> bytes -> option bytes.
+  Hypothesis H_dec_enc : forall k n a m, raw_dec k n a (raw_enc k n a m) = Some m.
+  Hypothesis H_auth : forall k n a c m, raw_dec k n a c = Some m -> c = raw_enc k n a m.
+  Hypothesis H_bind : forall k n a m k' n' a' m',
+    raw_enc k n a m = raw_enc k' n' a' m' -> k = k' /\ n = n' /\ a = a' /\ m = m'.
+  (* no body is a proper suffix of another body (ideal: bodies are unrelated random-looking strings) *)
+  Hypothesis H_nosuffix : forall k n a m k' n' a' m' t,
+    raw_enc k n a m = t ++ raw_enc k' n' a' m' -> t = [].
+
+  (* any single primitive attempt on a string that ends with a genuine body: success pins down everything *)
+  Lemma attempt_unique e' a' u k n a m y :
+    prim_decrypt raw_dec e' a' (u ++ raw_enc k n a m) = Some y ->
+    e_mat e' = k /\ u = n /\ a' = a /\ y = m.
+  Proof.
+    unfold prim_decrypt. set (iv := real_iv (e_prim e')). set (c := raw_enc k n a m).
+    destruct (length (u ++ c) <? iv)%nat eqn:L; [discriminate|]. apply Nat.ltb_ge in L.
+    intro H. apply H_auth in H. rewrite skipn_app in H.
+    destruct (Nat.le_gt_cases iv (length u)) as [Hle|Hgt].
+    - replace (iv - length u)%nat with 0%nat in H by lia. cbn [skipn] in H.
+      symmetry in H. unfold c in H at 1. pose proof (H_nosuffix _ _ _ _ _ _ _ _ _ H) as T.
+      rewrite T in H. cbn [app] in H. apply H_bind in H. destruct H as (Hk & Hn & Ha & Hm).
+      assert (Lu : length u = iv).
+      { assert (length (skipn iv u) = 0%nat) by (rewrite T; reflexivity). rewrite skipn_length in H. lia. }
+      rewrite <- Lu, firstn_app_len in Hn. auto.
+    - exfalso. rewrite (skipn_all2 u) in H by lia. cbn [app] in H.
+      assert (Hc : c = firstn (iv - length u) c ++ skipn (iv - length u) c) by (symmetry; apply firstn_skipn).
+      rewrite H in Hc. unfold c in Hc at 1. pose proof (H_nosuffix _ _ _ _ _ _ _ _ _ Hc) as T.
+      assert (c = []).
+      { destruct c as [|x c']; [reflexivity|]. destruct (iv - length u)%nat eqn:D; [lia|]. discriminate. }
+      rewrite app_length in L. rewrite H0 in L. simpl in L. lia.
+  Qed.
+
+  Lemma tink_attempt_gen es a' pf n' k n a m y :
+    (5 <= length n')%nat ->
+    tink_decrypt raw_dec es a' (pf ++ n' ++ raw_enc k n a m) = Some y ->
+    exists e' u, In e' es /\ (u = pf ++ n' \/ u = skipn 5 (pf ++ n')) /\
+                 e_mat e' = k /\ u = n /\ a' = a /\ y = m.
+  Proof.
+    intros L5. rewrite app_assoc. set (c := raw_enc k n a m).
+    assert (S5 : skipn 5 ((pf ++ n') ++ c) = skipn 5 (pf ++ n') ++ c).
+    { rewrite skipn_app. replace (5 - length (pf ++ n'))%nat with 0%nat by (rewrite app_length; lia). reflexivity. }
+    unfold tink_decrypt.
+    destruct (if (5 <? length ((pf ++ n') ++ c))%nat
+              then first_some (fun e => prim_decrypt raw_dec e a' (skipn 5 ((pf ++ n') ++ c)))
+                     (filter (fun e => negb (is_raw e) && bytes_eqb (prefix_of e) (firstn 5 ((pf ++ n') ++ c))) es)
+              else None) as [y0|] eqn:B.
+    - intro H; inversion H; subst y0. destruct (5 <? length ((pf ++ n') ++ c))%nat; [|discriminate].
+      apply first_some_some in B as [e' [Hi He]]. apply filter_In in Hi as [Hi _]. rewrite S5 in He.
+      apply attempt_unique in He. exists e', (skipn 5 (pf ++ n')). tauto.
+    - intro H. apply first_some_some in H as [e' [Hi He]]. apply filter_In in Hi as [Hi _].
+      apply attempt_unique in He. exists e', (pf ++ n'). tauto.
+  Qed.
+
+  (* Decrypt of a genuine body under ANY keyset: if accepted, then with exactly the original nonce and aad, the original
+     message, and a key of this keyset *)
+  Lemma decrypt_genuine_gen ks' a' n' k n a m y :
+    (5 <= length n')%nat -> length n' = length n ->
+    svc_decrypt raw_dec ks' (raw_enc k n a m) a' n' = Some y ->
+    In k (map e_mat (ks_entries ks')) /\ n' = n /\ a' = a /\ y = m.
+  Proof.
+    intros L5 Ln H. unfold svc_decrypt in H. apply first_some_some in H as [pf [Hin Hd]].
+    apply (proj1 (nodup_bytes_in _ _)) in Hin. apply in_map_iff in Hin as [e0 [<- _]].
+    destruct (tink_attempt_gen _ _ _ _ _ _ _ _ _ L5 Hd) as [e' [u [Hi [Hu [Hk [Hn [Ha Hy]]]]]]].
+    split; [rewrite <- Hk; apply in_map; exact Hi|]. split; [|auto].
+    destruct (prefix_of_len e0) as [P|P]; destruct Hu as [Hu|Hu]; subst u.
+    - destruct (prefix_of e0); [|discriminate]. exact Hn.
+    - exfalso. assert (length (skipn 5 (prefix_of e0 ++ n')) = length n) by (rewrite Hn; reflexivity).
+      rewrite skipn_length, app_length in H. lia.
+    - exfalso. assert (length (prefix_of e0 ++ n') = length n) by (rewrite Hn; reflexivity).
+      rewrite app_length in H. lia.
+    - rewrite <- P, skipn_app_len in Hn. exact Hn.
+  Qed.
+
+  Lemma aead_altered_rejected_gen ks' k n a m n' a' :
+    (5 <= length n')%nat -> length n' = length n ->
+    (n' <> n \/ a' <> a \/ ~ In k (map e_mat (ks_entries ks'))) ->
+    svc_decrypt raw_dec ks' (raw_enc k n a m) a' n' = None.
+  Proof.
+    intros L5 Ln Hne. destruct (svc_decrypt raw_dec ks' (raw_enc k n a m) a' n') as [y|] eqn:D; [|reflexivity].
+    exfalso. destruct (decrypt_genuine_gen _ _ _ _ _ _ _ _ L5 Ln D) as (Hk & Hn & Ha & _). tauto.
+  Qed.
+
+  Lemma prim_decrypt_own e a n m :
+    length n = real_iv (e_prim e) -> prim_decrypt raw_dec e a (n ++ raw_enc (e_mat e) n a m) = Some m.
+  Proof.
+    intro Hl. unfold prim_decrypt. rewrite <- Hl.
+    replace (length (n ++ raw_enc (e_mat e) n a m) <? length n)%nat with false
+      by (symmetry; apply Nat.ltb_ge; rewrite app_length; lia).
+    rewrite firstn_app_len, skipn_app_len. apply H_dec_enc.
+  Qed.
+
+  Lemma tink_own_gen es e a n m :
+    In e es -> length n = real_iv (e_prim e) ->
+    tink_decrypt raw_dec es a (prefix_of e ++ n ++ raw_enc (e_mat e) n a m) = Some m.
+  Proof.
+    intros Hi Hl. pose proof (real_iv_pos (e_prim e)) as Hp.
+    assert (L5 : (5 <= length n)%nat) by (rewrite Hl; destruct (e_prim e); simpl; lia).
+    set (c := raw_enc (e_mat e) n a m).
+    assert (U : forall x u y, prim_decrypt raw_dec x a (u ++ c) = Some y -> y = m).
+    { intros x u y H. apply attempt_unique in H. apply H. }
+    assert (S5 : skipn 5 (prefix_of e ++ n ++ c) = skipn 5 (prefix_of e ++ n) ++ c).
+    { rewrite app_assoc, skipn_app. replace (5 - length (prefix_of e ++ n))%nat with 0%nat by (rewrite app_length; lia). reflexivity. }
+    unfold tink_decrypt. rewrite S5.
+    destruct (e_pt e) eqn:PT.
+    - (* raw key: whatever the prefix phase finds is m; then the raw phase finds e *)
+      assert (P0 : prefix_of e = []) by (unfold prefix_of; rewrite PT; reflexivity).
+      destruct (if (5 <? length (prefix_of e ++ n ++ c))%nat then _ else None) as [y0|] eqn:B.
+      + f_equal. destruct (5 <? length (prefix_of e ++ n ++ c))%nat; [|discriminate].
+        apply first_some_some in B as [x [_ Hx]]. eapply U; exact Hx.
+      + rewrite P0. cbn [app]. apply first_some_ok.
+        * intros x y _ Hx. apply (U x n y). exact Hx.
+        * exists e. split; [apply filter_In; split; [exact Hi|unfold is_raw; rewrite PT; reflexivity]|].
+          apply prim_decrypt_own. exact Hl.
+    - assert (P5 : length (prefix_of e) = 5%nat) by (unfold prefix_of; rewrite PT; reflexivity).
+      replace (5 <? length (prefix_of e ++ n ++ c))%nat with true
+        by (symmetry; apply Nat.ltb_lt; rewrite !app_length; lia).
+      assert (F5 : firstn 5 (prefix_of e ++ n ++ c) = prefix_of e) by (rewrite <- P5; apply firstn_app_len).
+      assert (K5 : skipn 5 (prefix_of e ++ n) = n) by (rewrite <- P5; apply skipn_app_len).
+      rewrite F5, K5.
+      rewrite (first_some_ok _ _ m); [reflexivity| |].
+      + intros x y _ Hx. apply (U x n y). exact Hx.
+      + exists e. split; [|apply prim_decrypt_own; exact Hl].
+        apply filter_In. split; [exact Hi|]. unfold is_raw. rewrite PT. cbn [negb andb]. apply bytes_eqb_refl.
+  Qed.
+
+  Lemma decrypt_roundtrip_gen ks' e a n m :
+    In e (ks_entries ks') -> length n = real_iv (e_prim e) ->
+    svc_decrypt raw_dec ks' (raw_enc (e_mat e) n a m) a n = Some m.
+  Proof.
+    intros Hi Hl.
+    assert (L5 : (5 <= length n)%nat) by (rewrite Hl; destruct (e_prim e); simpl; lia).
+    unfold svc_decrypt. apply first_some_ok.
+    - intros pf y _ Hd. destruct (tink_attempt_gen _ _ _ _ _ _ _ _ _ L5 Hd) as [e' [u H]]. symmetry. apply H.
+    - exists (prefix_of e). split; [apply nodup_bytes_in, in_map; exact Hi|]. apply tink_own_gen; assumption.
+  Qed.
+
+  (* end to end over ANY two keysets: Encrypt under ks, Decrypt under any keyset that still holds the primary of ks *)
+  Lemma aead_roundtrip_mixed_l ks ks' e nonce a m c n :
+    primary ks = Some e -> length nonce = real_iv (e_prim e) -> In e (ks_entries ks') ->
+    svc_encrypt raw_enc ks nonce a m = Some (c, n) ->
+    svc_decrypt raw_dec ks' c a n = Some m.
+  Proof.
+    intros Hp Hl Hi Hs.
+    unfold svc_encrypt, tink_encrypt, prim_encrypt in Hs. rewrite Hp in Hs.
+    rewrite iv_size_real, <- Hl in Hs.
+    replace (length (prefix_of e) + length nonce)%nat with (length (prefix_of e ++ nonce)) in Hs by (apply app_length).
+    rewrite app_assoc, skipn_app_len in Hs. rewrite <- app_assoc, skipn_app_len, firstn_app_len in Hs.
+    inversion Hs; subst c n. apply decrypt_roundtrip_gen; assumption.
+  Qed.
+End AEADMIXED.
+
 (* the symbolic AEAD instance satisfies the ideal hypotheses *)
 From VF Require Import C04.Inst.
 
@@ -200,14 +357,18 @@ Qed.
 
 Lemma inst_dec_enc k n a m : inst_dec k n a (inst_enc k n a m) = Some m.
 Proof.
-  unfold inst_dec, inst_enc. rewrite N.eqb_refl. rewrite strip_prefix_app. apply strip_prefix_app.
+  unfold inst_dec, inst_enc, inst_code. rewrite rev_involutive, N.eqb_refl, strip_prefix_app, strip_prefix_app.
+  unfold lp. rewrite N.eqb_refl. reflexivity.
 Qed.
 Lemma inst_auth k n a c m : inst_dec k n a c = Some m -> c = inst_enc k n a m.
 Proof.
-  unfold inst_dec, inst_enc. destruct c as [|k' r]; [discriminate|].
+  unfold inst_dec, inst_enc, inst_code. intro H. rewrite <- (rev_involutive c). f_equal.
+  destruct (rev c) as [|k' r]; [discriminate|].
   destruct (N.eqb_spec k' k); [|discriminate]. subst.
-  destruct (strip_prefix (lp n) r) as [r2|] eqn:E; [|discriminate]. intro H.
-  apply strip_prefix_some in E. apply strip_prefix_some in H. subst. reflexivity.
+  destruct (strip_prefix (lp n) r) as [r2|] eqn:E; [|discriminate].
+  destruct (strip_prefix (lp a) r2) as [[|l m']|] eqn:E2; try discriminate.
+  destruct (N.eqb_spec l (N.of_nat (length m'))); [|discriminate]. inversion H; subst.
+  apply strip_prefix_some in E. apply strip_prefix_some in E2. subst. reflexivity.
 Qed.
 
 Lemma app_eq_len {A} : forall (a b x y : list A), length a = length b -> a ++ x = b ++ y -> a = b /\ x = y.
@@ -215,10 +376,29 @@ Proof.
   induction a as [|h a IH]; intros [|h' b] x y Hl He; try discriminate; [auto|].
   simpl in *. inversion He; subst. destruct (IH b x y) as [-> ->]; auto.
 Qed.
+
+(* the code is self-delimiting: a code followed by anything equals another code only if they are the same *)
+Lemma inst_code_prefix_free k n a m k' n' a' m' t :
+  inst_code k n a m = inst_code k' n' a' m' ++ t -> k = k' /\ n = n' /\ a = a' /\ m = m' /\ t = [].
+Proof.
+  unfold inst_code, lp. intro H. cbn [app] in H. inversion H as [[Hk Hn Hr]]. clear H.
+  apply Nat2N.inj in Hn. rewrite <- !app_assoc in Hr. destruct (app_eq_len _ _ _ _ Hn Hr) as [-> Hr2].
+  cbn [app] in Hr2. inversion Hr2 as [[Ha Hr3]]. apply Nat2N.inj in Ha.
+  destruct (app_eq_len _ _ _ _ Ha Hr3) as [-> Hr4].
+  cbn [app] in Hr4. inversion Hr4 as [[Hm Hr5]]. apply Nat2N.inj in Hm.
+  destruct (app_eq_len _ _ _ _ Hm Hr5) as [-> Ht]. auto.
+Qed.
+
 Lemma inst_bind k n a m k' n' a' m' :
   inst_enc k n a m = inst_enc k' n' a' m' -> k = k' /\ n = n' /\ a = a' /\ m = m'.
 Proof.
-  unfold inst_enc, lp. intro H. inversion H as [[Hk Hn Hr]]. clear H.
-  apply Nat2N.inj in Hn. destruct (app_eq_len _ _ _ _ Hn Hr) as [-> Hr2].
-  inversion Hr2 as [[Ha Hr3]]. apply Nat2N.inj in Ha. destruct (app_eq_len _ _ _ _ Ha Hr3) as [-> ->]. auto.
+  unfold inst_enc. intro H. apply (f_equal (@rev N)) in H. rewrite !rev_involutive in H.
+  rewrite <- (app_nil_r (inst_code k' n' a' m')) in H. apply inst_code_prefix_free in H. tauto.
+Qed.
+Lemma inst_nosuffix k n a m k' n' a' m' t :
+  inst_enc k n a m = t ++ inst_enc k' n' a' m' -> t = [].
+Proof.
+  unfold inst_enc. intro H. apply (f_equal (@rev N)) in H. rewrite rev_app_distr, !rev_involutive in H.
+  apply inst_code_prefix_free in H. destruct H as (_ & _ & _ & _ & Ht).
+  rewrite <- (rev_involutive t), Ht. reflexivity.
 Qed.
